@@ -319,7 +319,9 @@ fn cli_sample(rt: &Runtime, rep: &mut StageReport) -> Vec<(serde_json::Value, St
             }
             std::fs::write(dir.join("good.skf"), &f.bytes).unwrap();
             cli::write_fasta_auto(&dir.join("ref.fa"), &[crate::gen::filler(63, 1)], None);
-            let cmds: Vec<Vec<&str>> = vec![
+            // every third damaged file is read by the multi-threaded invocations
+            let th: &[&str] = if attempts % 3 == 0 { &["--threads", "2"] } else if attempts % 3 == 1 { &["--threads", "4"] } else { &[] };
+            let mut cmds: Vec<Vec<&str>> = vec![
                 vec!["nk", "--full-info", dname],
                 vec!["align", dname, "-o", "out_aln"],
                 vec!["map", "ref.fa", dname, "-o", "out_map"],
@@ -330,6 +332,11 @@ fn cli_sample(rt: &Runtime, rep: &mut StageReport) -> Vec<(serde_json::Value, St
                 vec!["weed", dname, "ref.fa", "-o", "out_weed.skf"],
                 vec!["lo", dname, "out_lo"],
             ];
+            for c in cmds.iter_mut() {
+                if matches!(c[0], "align" | "map" | "distance" | "lo") {
+                    c.extend_from_slice(th);
+                }
+            }
             for cmd in cmds {
                 let o = run_ska_env(&ctx, &dir, &cmd, &[]);
                 rep.evaluations += 1;
@@ -375,7 +382,7 @@ fn stages(_tier: Tier) -> Vec<Box<dyn Stage>> {
         ),
         enum_stage(
             "cli",
-            "sample of damaged files that the loader rejects, each (half of them named without the .skf suffix next to an intact <name>.skf that holds a different table) through nk, align, map, distance, merge (as first and as second input), delete, weed, lo: non-zero exit, damaged input byte-identical afterwards, no non-empty output file",
+            "sample of damaged files that the loader rejects, each (half of them named without the .skf suffix next to an intact <name>.skf that holds a different table) through nk, align, map, distance, merge (as first and as second input), delete, weed, lo (align/map/distance/lo with --threads 2 or 4 for two thirds of the files): non-zero exit, damaged input byte-identical afterwards, no non-empty output file",
             cli_sample,
         ),
     ]
